@@ -137,7 +137,8 @@ def lifetime_orbit(cfgid):
         try:
             if model in lifetime_closed.MODELS:
                 cls, _, names = lifetime_closed.MODELS[model]
-                first, second = lifetime_closed.params(model, S, variant)
+                # (the parameter VALUES are the same for every member of the orbit; only their storage order varies)
+                first, second = lifetime_closed.params(model, S, variant, jump=bool(cfgid % 2))
                 a1, a2 = lifetime_closed.build_arrays(S, first, second, variant)
                 lm = cls(dims=S.dims, time_letter="t", **{names[0]: a1, names[1]: a2})
                 b1, b2 = lifetime_closed.build_arrays(S, first, second, variant)
